@@ -1,6 +1,8 @@
-(* Suite "query" (C13): `klog print --no-style [filter flags] [--sort s] <file>` at a given date.
+(* Suite "query" (C13): `klog print --no-style [filter flags] [--sort s] <file>` (query-run) and
+   `klog json [filter flags] [--sort s] <file>` (query-json) at a given date.
 
-     query-run <y> <m> <d> <sort> <n> <flag_1> ... <flag_n> <hex file>
+     query-run  <y> <m> <d> <sort> <n> <flag_1> ... <flag_n> <hex file>
+     query-json <y> <m> <d> <sort> <n> <flag_1> ... <flag_n> <hex file>
 
    <y m d>  the local date of the clock (NewDateFromGo(ctx.Now()))
    <sort>   the value of --sort, hex ("-": the flag is not given)
@@ -9,7 +11,10 @@
             errors), or `ok <k> <record_1> ... <record_k>`: the records printed, in print order, each as ShowRecord
             prints a parsed record (a should-total of 0 minutes reads `_`: klog print omits it). With --sort the records of each maximal run of equal dates are listed in
             ascending order of their canonical text: Go's sort.Slice leaves their order open (Proofs/Query.v
-            sort_spec_determines: everything else is determined). *)
+            sort_spec_determines: everything else is determined).
+            query-json prints each record as `J <hex date text> <should-total minutes> <hex summary> <k> <entry>...`
+            with <entry> = <type>:<total minutes>:<start minutes|_>:<end minutes|_>:<hex summary> (lines joined by LF),
+            the fields of the JSON output that do not depend on evaluation or tag listing (those are C12/C14/C20). *)
 From Klog Require Import Base.Prelude Base.Utf8 Model.Calendar Model.Values Model.Record Model.Lines Model.Parser
   Model.Tags Model.Period Model.Show Model.ShowRecord Model.Query.
 Open Scope Z_scope.
@@ -56,6 +61,27 @@ Definition show_selected (sorted : bool) (rs0 : list record) : bytes :=
                else map show_record rs in
   words ([b!"ok"; dec (Z.of_nat (length rs))] ++ lines).
 
+(* ---- the JSON view of a record (parser/json/serialiser.go toRecordViews), projected ---- *)
+Definition lf : bytes := [10%N].
+
+Definition show_json_entry (e : entry) : bytes :=
+  let sum := hex_of_bytes (join lf (e_summary e)) in
+  match e_value e with
+  | VDuration d => fields [b!"duration"; dec (d_mins d); b!"_"; b!"_"; sum]
+  | VRange r => fields [b!"range"; dec (range_minutes r); dec (time_offset (r_start r)); dec (time_offset (r_end r)); sum]
+  | VOpen o => fields [b!"open_range"; b!"0"; dec (time_offset (o_start o)); b!"_"; sum]
+  end.
+
+Definition show_json_record (r : record) : bytes :=
+  words ([b!"J"; hex_of_bytes (print_date (rec_date r)); dec (should_minutes r);
+          hex_of_bytes (join lf (rec_summary r)); dec (Z.of_nat (length (rec_entries r)))]
+         ++ map show_json_entry (rec_entries r)).
+
+Definition show_selected_json (sorted : bool) (rs : list record) : bytes :=
+  let lines := if sorted then canon_runs None [] (map (fun r => (rdate r, show_json_record r)) rs)
+               else map show_json_record rs in
+  words ([b!"ok"; dec (Z.of_nat (length rs))] ++ lines).
+
 Fixpoint take_flags (n : nat) (l : list bytes) : option (list bytes * list bytes) :=
   match n with
   | O => Some ([], l)
@@ -66,7 +92,8 @@ Fixpoint take_flags (n : nat) (l : list bytes) : option (list bytes * list bytes
   end.
 
 Definition suite_query (cmd : bytes) (args : list bytes) : option bytes :=
-  if bytes_eqb cmd b!"query-run" then
+  let json := bytes_eqb cmd b!"query-json" in
+  if bytes_eqb cmd b!"query-run" || json then
     match args with
     | y :: mo :: d :: sort :: n :: rest =>
       match take_flags (Z.to_nat (parse_int n)) rest with
@@ -83,7 +110,8 @@ Definition suite_query (cmd : bytes) (args : list bytes) : option bytes :=
             match parse_text (arg_bytes file) with
             | Ok (Parsed rs _) =>
               match run_query today a sortv rs with
-              | Ok out => show_selected (negb (bytes_eqb sortv [])) out
+              | Ok out => if json then show_selected_json (negb (bytes_eqb sortv [])) out
+                          else show_selected (negb (bytes_eqb sortv [])) out
               | Err _ => b!"err"
               | Crash _ => b!"crash"
               end
